@@ -85,7 +85,12 @@ struct Explorer {
         else if (input_order == 2) { std::sort(ordered.begin(), ordered.end()); std::reverse(ordered.begin(), ordered.end()); }
         std::vector<typename Index::value_type> tuples;
         for (auto &p : ordered) tuples.push_back(to_tuple<D, T>(p));
-        try { b.idx = new Index(tuples.begin(), tuples.end()); }
+        try {
+            if constexpr (D == 2) {
+                if (input_order == 3) { std::vector<std::pair<T, T>> prs; for (auto &p : ordered) prs.emplace_back(p[0], p[1]); b.idx = new Index(prs.begin(), prs.end()); }   // a range of std::pair is a documented input too
+                else b.idx = new Index(tuples.begin(), tuples.end());
+            } else b.idx = new Index(tuples.begin(), tuples.end());
+        }
         catch (const std::exception &e) { run.violation(case_of(spec, ""), std::string("construction over encodable points threw: ") + e.what()); return false; }
         b.sorted.clear();
         for (auto &p : b.pts) b.sorted.emplace_back(my_morton<D, T>(p), p);
@@ -166,9 +171,25 @@ struct Explorer {
         run.add(cn.contains_q);
         bool want = false;
         for (auto &x : b.pts) if (x == p) { want = true; break; }
+        // two other indexes of the same type are alive and asked about the same point just before: one that stores it, one that does not
+        static Index *decoy_all = nullptr, *decoy_none = nullptr; static std::vector<P> all_pts;
+        if (!decoy_all) {
+            std::vector<typename Index::value_type> tu; P far{}; for (size_t d = 0; d < D; ++d) far[d] = T(77 + d);
+            std::vector<typename Index::value_type> tn = {to_tuple<D, T>(far)};
+            decoy_none = new Index(tn.begin(), tn.end());
+            std::vector<T> ax; for (T v = 0; v < (D <= 2 ? 12 : D == 3 ? 6 : 4); ++v) ax.push_back(v);
+            for_cells(ax, [&](const P &pt) { all_pts.push_back(pt); tu.push_back(to_tuple<D, T>(pt)); });
+            decoy_all = new Index(tu.begin(), tu.end());
+        }
+        bool in_all = std::find(all_pts.begin(), all_pts.end(), p) != all_pts.end();
+        bool d1 = decoy_all->contains(to_tuple<D, T>(p));
         bool got = b.idx->contains(to_tuple<D, T>(p));
+        bool d2 = decoy_none->contains(to_tuple<D, T>(p));
+        bool got2 = b.idx->contains(to_tuple<D, T>(p));
         if (prop == 17) return;
-        if (got != want) run.violation(cs, std::string("contains() returned ") + (got ? "true for an absent point" : "false for a stored point"));
+        bool far_hit = true; for (size_t d = 0; d < D; ++d) if (p[d] != T(77 + d)) far_hit = false;
+        if (d1 != in_all || d2 != far_hit) { run.violation(cs, "a second index alive at the same time answers contains() wrongly for this point"); return; }
+        if (got != want || got2 != want) run.violation(cs, std::string("contains() returned ") + ((got != want ? got : got2) ? "true for an absent point" : "false for a stored point") + (got == want ? " (second call, after another index was asked)" : ""));
     }
 
     // all boxes over the given per-axis coordinate values
@@ -219,7 +240,7 @@ struct Explorer {
             std::vector<std::pair<P, int>> spec_cells;
             for (size_t i = 0; i < C; ++i) spec_cells.emplace_back(cells[i], mults[digit[i]]);
             std::string spec = spec_str(spec_cells);
-            for (input_order = 0; input_order < 3; ++input_order) {
+            for (input_order = 0; input_order < (D == 2 ? 4 : 3); ++input_order) {
                 Built b{};
                 if (build(spec_cells, spec, b)) {
                     if (!sampled && digit[C - 1] == 2 && digit[C - 2] == 1) { run.sample(case_of(spec, "*all boxes over the axis values*")); sampled = true; }
@@ -570,7 +591,7 @@ int main(int argc, char **argv) {
     mc::Run::EvidenceExtra ev;
     ev.states_counter = "point_multisets_indexed"; ev.transitions_counter = prop == 14 ? "contains_queries_checked" : "box_queries_checked";
     ev.nontrivial_counter = "multisets_with_2plus_distinct_points";
-    ev.rule = "real miss_threshold=64; boxes are traversed with ++it and (every box of at most 8 points and every third other box) again with it++; points are supplied in enumeration order, lexicographic order and reverse lexicographic order. (a) every multiplicity vector in {0,1,65}^cells over 3x3 (2D) / 2x2x2 (3D) cell universes (65 copies of an out-of-box cell force the bigmin skip), several coordinate sets incl. the largest encodable coordinate; "
+    ev.rule = "real miss_threshold=64; boxes are traversed with ++it and (every box of at most 8 points and every third other box) again with it++; points are supplied in enumeration order, lexicographic order and reverse lexicographic order, and (2 dimensions) as a range of std::pair; for contains() two other indexes of the same type are alive and are asked about the same point between the calls. (a) every multiplicity vector in {0,1,65}^cells over 3x3 (2D) / 2x2x2 (3D) cell universes (65 copies of an out-of-box cell force the bigmin skip), several coordinate sets incl. the largest encodable coordinate; "
               "(b) full grids 16x16, 32x32, 8x8x8, 4^4 with every axis-aligned box; (c, thorough) 16x16 grid with every {removed,x1,x2} pattern of a 3x3 window; (e) 33124 / 35937 grid points plus 7 or 19 far points, index built with 2, 8 and 20 chunks (chunked construction); (g) point sets whose sorted Morton codes are the keys of members of the one-dimensional density family (1,200 clusters whose spacing changes every 300; also with EpsilonRecursive 33 / 40, the binary-search routing path): contains() for every stored point and for the absent neighbours of every key, three boxes; (f) wide thin boxes (2^h wide for every h the coordinate type holds, miss runs of 64/65/66/130 that end just below x = 2^h, three placements of the first hit beyond): BIGMIN decisions at every bit of the code word, all dimensions and coordinate types; (d) miss-run family: a run of m consecutive out-of-box points for every m in 1..600 (and, for every fifth m and 60..70, the same constellation translated to the top bits of the code word, and the constellation cut off after the run so that nothing is stored beyond it) and every split (step 16) of the totals {63..66,127..130,191..193,255..258,319..321,511..513} into two runs separated by an in-box hit, also for Epsilon 32 and 64. " +
               std::string(prop == 14 ? "Every cell of the universe and cells just outside it / at the largest encodable coordinate are passed to contains(); oracle: membership in the multiset."
                                      : "Every box over the axis values is enumerated; oracle: brute-force filter sorted by the harness's own Morton code, with multiplicity; iteration must end within n+2 steps.") +
